@@ -612,6 +612,7 @@ var p20Kinds = []string{
 
 func genP20(g *Gen, p *Program) {
 	g.sharedPool(p, 20000)
+	g.wildSpecs = true
 	for i := 0; i < 3; i++ {
 		g.lits = append(g.lits, g.Literal(false))
 	}
